@@ -282,6 +282,9 @@ func gcConfigs(tier string) []Config {
 			cfg("mh", false, 12, 48, 48),
 			cfg("mh", true, 8, 48, 48),
 			cfg("cid", false, 8, 48, bigFile),
+			// more buckets than the 4096-entry chunk in which the free-file
+			// scan copies the bucket table
+			cfg("mh", false, 16, 48, 48),
 		)
 		d := cfg("mh", false, 8, 48, 48)
 		d.MapDesc = true
